@@ -93,9 +93,10 @@ def stmt_may_raise(st):
 
 
 class CFG(object):
-    def __init__(self, fnode, qualname=""):
+    def __init__(self, fnode, qualname="", peel=False):
         self.fnode = fnode
         self.qualname = qualname
+        self.peel = peel        # duplicate the first iteration of every for loop (used by the interval analysis)
         self.nodes = []
         self.entry = self._new("entry")
         self.exit = self._new("exit")
@@ -202,14 +203,28 @@ class CFG(object):
             h = self._new("for", st)
             h.stmt = st
             h.loop = st
-            self._edge(init, h, "next")
-            self._edge(h, self._exc_target(), "exc")      # next() of the iterator may raise
             brk = []
+            out0 = []
+            if self.peel:
+                h0 = self._new("for", st)
+                h0.stmt = st
+                h0.loop = st
+                h0.exc = True          # marks the peeled (first-iteration) head
+                self._edge(init, h0, "next")
+                self._edge(h0, self._exc_target(), "exc")
+                self._loops.append((h, brk, len(self._frames)))
+                first_end = self._block(st.body, [(h0, "iter")])
+                self._loops.pop()
+                self._link(first_end, h)
+                out0 = [(h0, "exhaust")]
+            else:
+                self._edge(init, h, "next")
+            self._edge(h, self._exc_target(), "exc")      # next() of the iterator may raise
             self._loops.append((h, brk, len(self._frames)))
             body_end = self._block(st.body, [(h, "iter")])
             self._loops.pop()
             self._link(body_end, h)
-            out = [(h, "exhaust")]
+            out = [(h, "exhaust")] + out0
             if st.orelse:
                 out = self._block(st.orelse, out)
             return out + brk
